@@ -14,7 +14,7 @@ use vl_model::wire::*;
 use crate::c01::{self, SockOutcome};
 
 pub const RULE: &str = "(A) request sequences of C01 x transport in {unix path, unix path;mode=0660, unix:@abstract, \
-tcp:127.0.0.1:port, service spawned by Connection::with_activate, stdio of a command spawned by \
+tcp:127.0.0.1:port, tcp:localhost:port (where the name resolves to 127.0.0.1), service spawned by Connection::with_activate, stdio of a command spawned by \
 Connection::with_bridge, a service started by the harness like a service manager would (descriptor 3 + LISTEN_*, \
 default listen configuration) with a blocking and with a non-blocking inherited listener}: every transport's reply stream satisfies the reference model and equals (GetInfo's \
 interface list compared as a set) the stream of the in-memory handler for the same requests at the same \
@@ -166,6 +166,15 @@ impl Transports {
         let port = free_tcp_port(seed, 1);
         let a = format!("tcp:127.0.0.1:{}", port);
         servers.push(("tcp".to_string(), a.clone(), Server::start(t_service().0, &a, 1, 32, 0)));
+        // a host name instead of an address literal: client and server both resolve it
+        {
+            use std::net::ToSocketAddrs;
+            if ("localhost", 1u16).to_socket_addrs().map(|mut a| a.any(|x| x.ip() == std::net::Ipv4Addr::LOCALHOST)).unwrap_or(false) {
+                let port = free_tcp_port(seed, 2);
+                let a = format!("tcp:localhost:{}", port);
+                servers.push(("tcp-hostname".to_string(), a.clone(), Server::start(t_service().0, &a, 1, 32, 0)));
+            }
+        }
         let mut own = vec![];
         for (tag, nb) in [("b", false), ("nb", true)] {
             if let Ok(o) = spawn_own_activated(&scratch.path, tag, nb) {
